@@ -574,6 +574,15 @@ class C04(ConnProp):
                     ops = cut_exact(rng, len(pre) + len(head)) + [[3, 100000], [2, rng.choice([1, 1 << 20])]]
                     out.append(self.mk(L, stream, ops, {'kind': 'limit', 'L': L, 'n': n, 'headlen': len(pre) + len(head),
                                                         'near': abs(d) <= 2}))
+        # limits above the default with bodies beyond 51200 bytes sent in full: delivered whole
+        for L in (60000, 102400):
+            for n in (51200, 51201, 60000):
+                for _ in range(1 if tier == 'quick' else 4):
+                    head = b'PUT /big HTTP/1.1\r\nContent-Length: %d\r\n\r\n' % n
+                    body = bytes(rng.choice(b'abcxyz') for _ in range(n))
+                    stream = head + body + b'GET /after HTTP/1.1\r\n\r\n'
+                    ops = [[2, 1 << 20]] * 4
+                    out.append(self.mk(L, stream, ops, {'kind': 'limit', 'L': L, 'n': n, 'headlen': len(head), 'near': False}))
         # declared lengths that do not fit 32 bits (n > L for every L): rejected when the header block completes, never
         # taken modulo 2^32
         for L in reqgen.LIMITS:
